@@ -66,7 +66,12 @@ def main():
                         "tier": a.tier, "runs": out, "caught": caught}
         print("%s: %s  %s" % (sid, "CAUGHT" if caught else "MISSED",
                               "; ".join("%s exit=%s %s" % (o["property"], o.get("exit"), " ".join(o.get("violation_lines", []))[:160]) for o in out)), flush=True)
-        json.dump(results, open(results_path, "w"), indent=1)
+        import fcntl
+        with open(results_path + ".lock", "w") as lk:      # several runs over disjoint seeds may share the file
+            fcntl.flock(lk, fcntl.LOCK_EX)
+            cur = json.load(open(results_path)) if os.path.exists(results_path) else {}
+            cur[sid] = results[sid]
+            json.dump(cur, open(results_path, "w"), indent=1)
 
 
 if __name__ == "__main__":
